@@ -30,7 +30,7 @@ open AgModel AgModel.Node AgModel.NodePanic AgModel.Pool
 theorem init_ready (c : Cfg) (hi : Nat) (hhi : hi < 2 * Gen.SLOTS_PER_EPOCH) : CReady c hi 1 (0, 0) (init c) := by
   intro i _
   refine ⟨rfl, rfl, rfl, ?_, fun t _ => rfl, (fun k hk => by exact absurd hk (by simp [init])), ?_⟩
-  · refine ⟨by decide, Nat.le_refl _, Nat.le_refl _, (by show hi < 0 + 2 * Gen.SLOTS_PER_EPOCH; omega), ?_, fun b _ => rfl, ?_, Nat.le_refl _, ?_, ?_, ?_, ?_⟩
+  · refine ⟨by decide, Nat.le_refl _, Nat.le_refl _, (by show hi < 0 + 2 * Gen.SLOTS_PER_EPOCH; omega), ?_, fun b _ => rfl, ?_, Nat.le_refl _, ?_, ?_, ?_, ?_, rfl⟩
     · intro t ht
       show (if t = 0 then _ else none) = none
       rw [if_neg (by simp only [] at ht; omega)]
@@ -45,7 +45,7 @@ theorem init_ready (c : Cfg) (hi : Nat) (hhi : hi < 2 * Gen.SLOTS_PER_EPOCH) : C
       rw [show (init c i).pool.pr = ParentReady.init from rfl, this]
       exact ⟨rfl, rfl, rfl⟩
     · intro _; exact ⟨rfl, rfl, rfl⟩
-  · refine ⟨rfl, (by show 0 < 1; omega), ?_, ?_, (fun h => by exact absurd h (by decide)), fun _ => ⟨rfl, rfl⟩, fun j => rfl⟩
+  · refine ⟨rfl, (by show 0 < 1; omega), ?_, ?_, (fun h => by exact absurd h (by decide)), fun _ => ⟨rfl, rfl⟩, fun j => rfl, rfl⟩
     · intro t ht
       have : (init c i).votor.getS t = {} := by
         show ((Votor.lookup [(0, Votor.genesisState)] t).getD {}) = {}
@@ -331,6 +331,30 @@ theorem timely_progress (c : Cfg) (hpos : 0 < c.stakes.sum) (hi : Nat) (h60 : 3 
       · intro b hb i hi'
         exact (b3 b hb i hi').append_right
 
+/-! ## the highest finalized slot keeps advancing -/
+
+/-- in a cluster that is ready for slot `s` with parent `p`, every correct node's highest finalized slot — as its Votor knows
+    it (`highest_finalized_cert_slot`) and as its pool's finality tracker knows it — is the slot of `p` -/
+theorem ready_watermarks (c : Cfg) (hi s : Nat) (p : Nat × Nat) (st : State) (hr : CReady c hi s p st) (i : Nat)
+    (hi' : i ∈ correctIds c) : (st i).votor.hfcs = p.1 ∧ (st i).pool.fin.highest = p.1 :=
+  ⟨(hr i hi').votor.hfcsEq, (hr i hi').trk.highEq⟩
+
+/-- **Every correct node's highest finalized slot advances to the slot of the last block of the plan** (with
+    `timely_progress`): after the timely schedule of any plan whose last segment is a chain of blocks, it is the slot of the
+    plan's last block — at every correct node, in Votor and in the pool — and (`hfcs_never_decreases`) it never goes back,
+    whatever happens afterwards. -/
+theorem timely_progress_watermark (c : Cfg) (hpos : 0 < c.stakes.sum) (hi : Nat) (h60 : 3 * c.stakes.sum ≤ 5 * correctStake c)
+    (pl : Plan) (p : Nat × Nat) (s : Nat) (st : State) (hend : (planEnd pl p s).2 ≤ hi + 1) (hr : CReady c hi s p st)
+    (hok : planOk c pl p s) (i : Nat) (hi' : i ∈ correctIds c) :
+    (run st (planSched c pl s st) i).votor.hfcs = (planEnd pl p s).1.1 ∧
+    (run st (planSched c pl s st) i).pool.fin.highest = (planEnd pl p s).1.1 :=
+  ready_watermarks c hi _ _ _ (timely_progress c hpos hi h60 pl p s st hend hr hok).2.2.2 i hi'
+
+/-- **Monotonicity**: in every run of the cluster — valid or not, any events at any node, timeouts, Byzantine messages — the
+    highest finalized slot known to a node's Votor never decreases -/
+theorem hfcs_never_decreases (st : State) (evs : List Ev) (i : Nat) : (st i).votor.hfcs ≤ (run st evs i).votor.hfcs :=
+  run_hfcs_mono st evs i
+
 /-! ## Stage C (partial) — the order of deliveries
 
 The full statement — *every* `Valid` run segment that contains the deliveries of the timely schedule in any interleaving, with
@@ -433,6 +457,10 @@ example : ∀ b ∈ [(1, 7), (2, 7), (3, 7), (8, 9)], ∀ i ∈ correctIds c6,
     (init_ready c6 100 (by decide)) plan_ok.1).2.2.1
   rw [plan_ok.2.2] at h
   exact h
+
+example : ∀ i ∈ correctIds c6, (run (init c6) (planSched c6 plan 1 (init c6)) i).votor.hfcs = 8 := fun i hi' =>
+  (timely_progress_watermark c6 (by decide) 100 (by decide) plan (0, 0) 1 (init c6) (by rw [plan_ok.2.1]; decide)
+    (init_ready c6 100 (by decide)) plan_ok.1 i hi').1
 
 /-- … and by evaluation: at the end every correct node's finality tracker has slot 8 as its highest finalized slot, and its
     Votor is past slot 8 -/
